@@ -1185,6 +1185,59 @@ def _binder_values(f, store):
     return vals or {v.id}
 
 
+# -------------------------------------------------------------------- R12
+def rule_r12(chk, prog):
+    chk.rule('C16.R12', 'an operator name selects its rule by equality: in '
+             'the sort and width inference an identifier is compared with '
+             '==, "in" or a full regular-expression match, never with '
+             're.match / search on an unanchored pattern (prefix or '
+             'substring semantics give (origin i) the sort of "or")')
+    m = prog.mod('smtlib')
+    n = 0
+    for fname in ('_get_sort_aux', 'get_bv_width', 'get_sort'):
+        if fname not in m.funcs:
+            continue
+        f = m.funcs[fname]
+        for c in ast.walk(f):
+            if not isinstance(c, ast.Call):
+                continue
+            nm = call_name(c) or ''
+            how = None
+            pat = None
+            subj = None
+            if nm in ('re.match', 're.search') and len(c.args) >= 2:
+                how, pat, subj = nm.split('.')[1], c.args[0], c.args[1]
+            elif isinstance(c.func, ast.Attribute) and c.func.attr in (
+                    'match', 'search') and c.args and isinstance(
+                        c.func.value, ast.Name) and len(m.globals.get(
+                            c.func.value.id, [])) == 1:
+                how, subj = c.func.attr, c.args[0]
+                d = m.globals[c.func.value.id][0]
+                if isinstance(d, ast.Call) and call_name(
+                        d) == 're.compile' and d.args:
+                    pat = d.args[0]
+                else:
+                    pat = d  # built by a helper: not a literal
+            if how is None:
+                continue
+            n += 1
+            anchored = isinstance(pat, ast.Constant) and isinstance(
+                pat.value, str) and pat.value.endswith(('$', '\\Z')) and (
+                    how == 'match' or pat.value.startswith('^')) and \
+                '|' not in pat.value
+            chk.check('C16.R12', f'smtlib.{fname}', c, anchored,
+                      f'"{unparse(c)[:60]}" selects an inference rule by '
+                      f're.{how} on a pattern that is not anchored at both '
+                      'ends: every identifier that merely starts with (or '
+                      'contains) an operator name gets that operator\'s '
+                      'sort - (origin i) becomes Bool because of "or", '
+                      '(modulus x) Int because of "mod"', loc=m.loc(c),
+                      nontrivial=True)
+    chk.instance('C16.R12', 'scope', f'{n} regular-expression tests in the '
+                 'inference functions', True, 'zero-count rule (witness: '
+                 'C16_26)')
+
+
 # -------------------------------------------------------------------- R11
 NUM_POS = ('0', '7', '12', '007')
 DEC_POS = ('1.5', '0.25', '10.0')
@@ -1968,6 +2021,7 @@ def run(tier):
     chk.guard(rule_r9, chk, prog)
     chk.extra['exhaustive'] = True
     chk.guard(rule_r11, chk, prog)
+    chk.guard(rule_r12, chk, prog)
     from .. import memo
 
     def _memo_rule(chk, prog):
